@@ -175,7 +175,7 @@ def run_register(cases, res):
         try:
             acc = fx.Fxp(c['init'], s, nw, nf, raw=True, overflow='wrap', rounding='floor', op_sizing='same')
             exact = Fraction(c['init'], 1 << nf)
-            codes_seq = []
+            codes_seq = []; flags_seq = []
             reqs = []
             for op, yc in c['steps']:
                 ys, nwy, nfy = c.get('yfmt', [s, nw, nf])
@@ -184,13 +184,13 @@ def run_register(cases, res):
                 yv = Fraction(yc, 1 << nfy)
                 ex = cur + yv if op == '+' else (cur - yv if op == '-' else cur * yv)
                 acc = acc + y if op == '+' else (acc - y if op == '-' else acc * y)
-                codes_seq.append(lib.codes_of(acc)[0])
+                codes_seq.append(lib.codes_of(acc)[0]); flags_seq.append(lib.status3(acc)[:2])
                 reqs.append([4] + e_fmt(s, nw, nf) + [RMODES.index('floor'), 1] + e_list([ex], e_dy))
             outs = model_call(reqs)
             want = [Reader(o).lst(lambda: 0) for o in []]
-            want = []
+            want = []; wflags = []
             for o in outs:
-                rd = Reader(o); want.append(rd.lst(rd.z)[0])
+                rd = Reader(o); want.append(rd.lst(rd.z)[0]); wflags.append((rd.b(), rd.b()))
         except Exception as e:
             res.fail(c, 'C03: register arithmetic raised %s' % lib.exc_name(e), got=str(e)[:300]); continue
         lo, hi = S.fmt_bounds(s, nw)
@@ -199,7 +199,9 @@ def run_register(cases, res):
         if (acc.signed, acc.n_word, acc.n_frac) != (s, nw, nf):
             res.fail(c, 'C03: register arithmetic with sizing same changed the format', expected=(s, nw, nf), got=(acc.signed, acc.n_word, acc.n_frac)); continue
         if codes_seq != want:
-            res.fail(c, 'C03: arithmetic stored with wrap is not the n_word-bit register result', expected=want, got=codes_seq)
+            res.fail(c, 'C03: arithmetic stored with wrap is not the n_word-bit register result', expected=want, got=codes_seq); continue
+        if flags_seq != wflags:
+            res.fail(c, 'C03: register arithmetic reports overflow / underflow on the wrong side (an intermediate was reinterpreted)', expected=wflags, got=flags_seq)
 
 def outreg_cases(rng, n):
     cases = []
